@@ -135,9 +135,9 @@ type c11State struct {
 func (s *c11State) good() bool { return s.Kind == "good" }
 
 type c11Scenario struct {
-	Source     string     `json:"source"` // path | http
-	Strict     bool       `json:"strict"`
-	Refresh    string     `json:"refresh"`
+	Source     string `json:"source"` // path | http
+	Strict     bool   `json:"strict"`
+	Refresh    string `json:"refresh"`
 	refresh    time.Duration
 	DeepYields bool       `json:"yields_inside_loaders,omitempty"`
 	Stick      int        `json:"stick"`
@@ -1257,7 +1257,10 @@ func (x *c11Run) teardown() {
 			}
 			synctest.Wait()
 		}
-		close(x.tap.ch)
+		func() {
+			defer func() { recover() }() // a watcher that is through (one-shot mode) may have closed it itself
+			close(x.tap.ch)
+		}()
 	}
 	x.d.Finish()
 }
